@@ -129,7 +129,7 @@ def norm_stmt(s):
     return (name, kw, arg, fl, [norm_stmt(c) for c in kids])
 
 
-def stmt_covered(s, table):
+def stmt_covered(s, table, parent=None):
     """reasons why the statement is outside the hypotheses of `yin_stmt_roundtrip` (`StmtOk`): a keyword statement is named by its
     keyword and has an argument iff the keyword has one; an extension-instance statement has no argument (else: F86, YIN part); no
     YIN-attribute children"""
@@ -148,8 +148,10 @@ def stmt_covered(s, table):
             out.append("prefixed-keyword")
         if (an is None) != (arg is None):
             out.append("arg-presence")
+        if kw == b"value" and parent == b"error-message":
+            out.append("F340")
     for c in kids:
-        out += stmt_covered(c, table)
+        out += stmt_covered(c, table, kw)
     return out
 
 
@@ -261,6 +263,10 @@ def run_yin(cx):
             arg = a if an is not None else None
             ext_cases.append((1, 1, 0, (b"g:e2", an, ye, arg, [], [])))
             ext_cases.append((1, 0, 1, (b"g:e2", an, ye, arg, [], [(b"units", b"units", b"u", 0x200, [])])))
+    # directed: the witnesses of the listed findings (F36, F86 YIN part, F340)
+    ext_cases.append((1, 1, 0, (b"g:e2", b"t", True, b"", [], [])))
+    ext_cases.append((1, 1, 0, (b"g:e1", b"a", False, b"x", [], [(b"g:e1", "E", b"y", 0, [])])))
+    ext_cases.append((1, 1, 0, (b"g:e1", b"a", False, b"x", [], [(b"error-message", b"error-message", b"m", 0x200, [(b"value", b"value", b"1", 0, [])])])))
     for _ in range(cx.n(600, 20000)):
         trees = [gen_stmt(rng, table, 3) for _ in range(rng.randrange(1, 4))]
         cases.append("prstmt %d %d %s" % (rng.randrange(2), rng.choice([0, 1, 2, 5, 65534, 65535]), ser_stmts(trees)))
@@ -327,7 +333,7 @@ def run_yin(cx):
             vis = [c for c in got if not c[3] & (LYS_YIN_ATTR | LYS_YIN_ARGUMENT)]
             ok = unhex(r[1]) == name and (None if r[2] == "N" else unhex(r[2])) == arg and vis == want_kids
         cx.count(("yin-rt", doc, an, ye), True, "yin:roundtrip:%s:%s" % ("covered" if not cov else "outside(" + "+".join(cov) + ")", "holds" if ok else "fails"))
-        if not ok and set(cov) <= {"F36", "F86"}:
+        if not ok and set(cov) <= {"F36", "F86", "F340"}:
             head_ok = r[0] == "ok" and unhex(r[1]) == name and (None if r[2] == "N" else unhex(r[2])) == arg
             cx.fail(COMP, "yin_stmt_roundtrip: libyang's YIN parser does not return the extension instance its YIN printer wrote",
                     {"law": "yin_stmt_roundtrip", "ext": ser_ext(e), "doc_hex": hexs(doc), "reply": r[:3], "outside": cov, "head_ok": head_ok,
@@ -345,6 +351,9 @@ def classify(component, what, case):
     if "F36" in outside and case.get("reply", [])[:2] == ["err", "Resolve"] and \
             re.search(rb"<([\w.-]+:[\w.-]+)>[ \t\n]*</\1>", unhex(case.get("doc_hex", "-"))):
         return "F36"
+    if "F340" in outside and case.get("reply", [])[:2] == ["err", "Int"] and \
+            re.search(rb"<error-message>\s*<value>[^<]*</value>(?s:.)*<value value=", unhex(case.get("doc_hex", "-"))):
+        return "F340"
     if "F86" in outside and case.get("head_ok"):
         return "F86"
     return None
